@@ -147,3 +147,42 @@ Definition core (d : data) : Z * bool * option key := (d_mark d, d_params d, d_r
    marker <name of k>.done is visible in it (scheduler/base.py: job.donepath.exists())   *)
 Definition found (w : ws) (k : key) : bool :=
   match resolve w k with Some (_, d) => memZ (k_name k) (d_done d) | None => false end.
+
+(* ---- where d_recomp comes from -------------------------------------------------------
+   tools/jobs.py load_job + `job.__xpm__.identifier`: the definitions stored in params.json
+   are loaded in configuration mode (core/objects.py load_objects, as_instance=False: the model
+   is model/Serial.v load_into) with the classes AS THEY ARE NOW - a deprecated class carries
+   the type identifier of its replacement -, and the full identifier of the loaded root is
+   computed afresh (model/Hash.v full_pure).  The result is the path jobs/<tid>/<digest> the
+   directory is linked / moved to.
+
+   fixmeta = true  : the loader of the current code (`meta = definition.get("meta"); if meta is not None`):
+                     the three values of the flag - None, True, and an explicit False that forces a
+                     Meta[...] member into the identifier - are restored;
+   fixmeta = false : a loader that restores the flag only when it is truthy (`if meta := ...`), the
+                     literal record of a family of defects (see recompute_truthy_refuted).           *)
+From XV Require Import core.Value model.Hash model.Serial.
+
+Section Recompute.
+  Variable H : bytes -> bytes.          (* the hash function: any; SHA-256 in the correspondence run *)
+  Variable cs : classes.                (* the classes as they are now *)
+  Variable fixmeta : bool.
+
+  (* every reference must designate a definition (objects[...] raises otherwise: load_job answers None) *)
+  Definition loaded (h0 : heap) (ds : list def) : option heap :=
+    if resolves ds then load_into cs fixmeta true h0 ds else None.
+
+  Definition recompute (fuel : nat) (h0 : heap) (ds : list def) (root : nat) : option (bytes * bytes) :=
+    match loaded h0 ds with
+    | Some h' =>
+        match nth_error h' root with
+        | Some x =>
+            match nth_error cs (n_cls x), full_pure H cs h' fuel root with
+            | Some c, Ok d => Some (c_tid c, d)
+            | _, _ => None
+            end
+        | None => None
+        end
+    | None => None
+    end.
+End Recompute.
